@@ -129,6 +129,9 @@ def gen_case(rng, i):
     if tkind in ("testify", "matryer"):
         sch = BUILTIN_SCHEMA[tkind]
         case["schema_state"] = "builtin"
+        # the built-in schema is part of the binary: require-template-schema-exists (which only says what to do when a schema cannot be found) never switches it off
+        case["require"] = rng.choice([None, None, False, False, True])
+        case["require_level"] = rng.choice(["root", "pkg", "iface"])
     else:
         sch = gen_schema(rng)
         case["schema_state"] = rng.choice(["default", "default", "default", "custom", "custom", "absent", "broken"])
@@ -227,6 +230,15 @@ def eval_single(ctx, case):
     if lv["root"]:
         cfg["template-data"] = lv["root"]
     pa = {"config": {}, "interfaces": {"A": {"config": {}, "configs": [{"structname": "A0"}, {"structname": "A1"}]}, "B": {"config": {}}}}
+    if not custom and case.get("require") is not None:
+        rl = case.get("require_level", "root")
+        if rl == "root":
+            cfg["require-template-schema-exists"] = case["require"]
+        elif rl == "pkg":
+            pa["config"]["require-template-schema-exists"] = case["require"]
+        else:
+            pa["interfaces"]["A"]["config"]["require-template-schema-exists"] = case["require"]
+            pa["interfaces"]["B"]["config"]["require-template-schema-exists"] = case["require"]
     if lv["pkg"]:
         pa["config"]["template-data"] = lv["pkg"]
     if lv["ifaceA"]:
@@ -391,6 +403,19 @@ def body(ctx, replay=None):
             n, m = (90, 16) if ctx.tier == "quick" else (900, 120)
             cases = [gen_case(ctx.rng, i) for i in range(n)] + [gen_shared_case(ctx.rng, 10000 + i) for i in range(m)]
             cases += [gen_require_case(ctx.rng, 20000 + i) for i in range(2 * m)]
+            # fixed witnesses: built-in templates, require-template-schema-exists false at each level, data violating the built-in schema at each level (and conforming data)
+            j = 0
+            for t in ("testify", "matryer"):
+                for rl in ("root", "pkg", "iface"):
+                    for brk in ("none", "root", "pkg", "ifaceA", "cfgA1", "ifaceB"):
+                        lv = {l: {} for l in LEVELS}
+                        lv["root"] = {"boilerplate-file": ""} if False else {}
+                        c = {"kind": "single", "i": 30000 + j, "tkind": t, "seed": 7 + j, "schema_state": "builtin", "schema": BUILTIN_SCHEMA[t], "require": False, "require_level": rl, "levels": lv}
+                        if brk != "none":
+                            lv[brk]["zz-unknown"] = 1
+                            c["broke"] = [brk, "unknown-key"]
+                        cases.append(c)
+                        j += 1
         ctx.run_cases(cases, eval_case)
     finally:
         ctx.server.close()
